@@ -150,3 +150,14 @@ def run_shard(shard, col):
 
 def replay(desc, col):
     check(desc, col)
+
+REGISTER = True
+MUTANTS = [
+    {"what": "_try_replace_single_term: always-increasing term mapped to Goal('max') and decreasing to Goal('min')", "caught": True},
+    {"what": "unfixed float32 exact-fit rounding (known finding)", "caught": True, "note": "reported as KNOWN-FINDING, keyed separately"},
+]
+MANIFEST = {
+    "level_text": "Differential testing of the repo's pruned tile-shape enumeration against an exhaustive enumeration of every perfectly factorising assignment, template by template, on the real templates of generated specs, with the prune threshold lowered so that sign analysis, padding and goal coalescing run on small inputs; after the table Pareto filter both must contain the same (compatibility, fused-loop tile shape, objective, reservation) vectors. No counterexample in N templates; not a proof.",
+    "level_note": "Trusted: the exhaustive enumerator and validity definition in vf/instrument.py; both sides share accelforge's formula compilation and final makepareto (covered by C07, C11, C12). Perfect factorisation and dense projections only; spatial fanouts/loop bounds not generated yet. Open known finding: exact-fit capacities (float32 rounding).",
+    "technique": "property-based differential testing: pruned vs exhaustive enumeration (Hypothesis)",
+}
